@@ -1,17 +1,16 @@
 SPECIFICATION Spec
 CONSTANTS
   MinNodes = 0
-  MaxNodes = 3
+  MaxNodes = 2
   Base = 256
   MaxChain = 1
   IdxSpace = 8
   PastEndRule = "ge"
   CompletionOrder = "rewrite-publish"
   Withdrawals = TRUE
-  ConcurrentWithdrawals = FALSE
+  ConcurrentWithdrawals = TRUE
   HostReads = "snapshot"
   Reannouncements = TRUE
   ReannounceRule = "atomic"
 CHECK_DEADLOCK FALSE
-INVARIANTS BoundedCalls ExactCalls EachNodeOnceInOrder InOrder CursorRoundTrip PastEndIsTerminal NoCrash DeliveredComposite ResumeSafe
-PROPERTIES Terminates
+INVARIANTS NotW_WithdrawnBetweenReadAndDispatch
